@@ -13,9 +13,10 @@
      JSON document.  UTF-8 well-formedness of string contents is not checked
      here (Rust [String]s are UTF-8 by construction; the harness also runs
      serde_json).
-   - theorems about strings: [json_unescape_escape], [json_escape_safe],
-     [lex_string_escape] (framing: the lexer consumes exactly the escaped
-     string and the closing quote, whatever follows).
+   - theorems about strings: [json_unescape_escape], [lex_string_escape]
+     (framing: the lexer consumes exactly the escaped string and the closing
+     quote, whatever follows), [json_escape_no_ctrl],
+     [json_escape_quotes_escaped], [json_escape_no_lone_backslash].
    Document-level theorems are in Base/JsonDoc.v.  Stdlib only. *)
 From Coq Require Import List NArith Lia Bool.
 Import ListNotations.
@@ -470,27 +471,25 @@ Fixpoint no_lone_backslash (l : list N) : Prop :=
     else no_lone_backslash t
   end.
 
-Lemma esc_byte_safe b : Forall (fun c => c <> 34 \/ b = 34) (esc_byte b) /\ Forall (fun c => 32 <= c) (esc_byte b).
+Lemma esc_byte_no_ctrl b : Forall (fun c => 32 <= c) (esc_byte b).
 Proof.
   unfold esc_byte.
-  destruct (N.eqb_spec b 34) as [->|N34]; [split; repeat constructor; lia|].
-  destruct (N.eqb_spec b 92) as [->|N92]; [split; repeat constructor; lia|].
-  destruct (N.eqb_spec b 10) as [->|N10]; [split; repeat constructor; lia|].
-  destruct (N.eqb_spec b 13) as [->|N13]; [split; repeat constructor; lia|].
-  destruct (N.eqb_spec b 9) as [->|N9]; [split; repeat constructor; lia|].
+  destruct (N.eqb_spec b 34) as [->|N34]; [repeat constructor; lia|].
+  destruct (N.eqb_spec b 92) as [->|N92]; [repeat constructor; lia|].
+  destruct (N.eqb_spec b 10) as [->|N10]; [repeat constructor; lia|].
+  destruct (N.eqb_spec b 13) as [->|N13]; [repeat constructor; lia|].
+  destruct (N.eqb_spec b 9) as [->|N9]; [repeat constructor; lia|].
   destruct (N.ltb_spec b 32) as [L|G].
-  - assert (H1 : b / 16 < 16) by (apply N.div_lt_upper_bound; lia).
-    assert (H2 : b mod 16 < 16) by (apply N.mod_lt; lia).
-    assert (HD : forall n, 48 <= hexdigit n) by (intros n; unfold hexdigit; destruct (n <? 10); lia).
+  - assert (HD : forall n, 48 <= hexdigit n) by (intros n; unfold hexdigit; destruct (n <? 10); lia).
     pose proof (HD (b / 16)); pose proof (HD (b mod 16)).
-    split; repeat constructor; lia.
-  - split; repeat constructor; lia.
+    repeat constructor; lia.
+  - repeat constructor; lia.
 Qed.
 
 Theorem json_escape_no_ctrl s : Forall (fun c => 32 <= c) (json_escape s).
 Proof.
   induction s as [|b s IH]; [constructor|].
-  unfold json_escape in *. cbn [flat_map]. apply Forall_app; split; [apply esc_byte_safe | exact IH].
+  unfold json_escape in *. cbn [flat_map]. apply Forall_app; split; [apply esc_byte_no_ctrl | exact IH].
 Qed.
 
 (* every quote in the output is the second byte of the pair backslash quote *)
